@@ -11,13 +11,13 @@ import (
 // Rules about PersistentBlockList / notificationChannel (C02, C03, C04, C07).
 
 type pblCtx struct {
-	c        *Ctx
-	T        *types.Named // PersistentBlockList
-	info     *types.Named // persistentBlockInfo
-	funcs    []*ssa.Function
-	ctor     *ssa.Function
-	fSyncing string // epoch counter frozen by NotifySyncStarting
-	fSynced  string // epoch counter exposed by NotifySyncCompleted
+	c                           *Ctx
+	T                           *types.Named // PersistentBlockList
+	info                        *types.Named // persistentBlockInfo
+	funcs                       []*ssa.Function
+	ctor                        *ssa.Function
+	fSyncing                    string // epoch counter frozen by NotifySyncStarting
+	fSynced                     string // epoch counter exposed by NotifySyncCompleted
 	oWritten, oSyncing, oSynced string // per-block offset fields
 }
 
@@ -98,37 +98,37 @@ func closureWithResults(fn *ssa.Function, res ...string) []*ssa.Function {
 func init() {
 	register(&Rule{
 		ID: "R03.1", Props: []string{"C03"}, Engine: "own + guard",
-		Text: "closed-for-writing: the flag is set only in NotifySyncStarting, only to true, only under its isFinalSync parameter; PushBack allocates a block only on the flag's false edge and Put's finalizer returns a nil error only on the false edge of the flag read at finalisation time; the error returned on the true edge is errClosedForWriting, which is built with codes.Unavailable",
+		Text:  "closed-for-writing: the flag is set only in NotifySyncStarting, only to true, only under its isFinalSync parameter; PushBack allocates a block only on the flag's false edge and Put's finalizer returns a nil error only on the false edge of the flag read at finalisation time; the error returned on the true edge is errClosedForWriting, which is built with codes.Unavailable",
 		Floor: 4, MustExist: true, Run: runR031,
 	})
 	register(&Rule{
-		ID: "R01.6", Props: []string{"C01", "C08", "C03"}, Engine: "guard + flow",
-		Text: "rotated-away writes are refused and relative indices are recomputed: in both put finalizers (OldCurrentNewLocationBlobMap.Put, PersistentBlockList.Put) every use of `absolute index - blocks released` as an index or as the published BlockIndex is dominated by `absolute index >= blocks released` (resp. >= blocks to be released) evaluated inside the finalizer, and the BlockIndex published derives from the released-counter read inside the finalizer (never a relative index captured at allocation time)",
+		ID: "R01.6", Props: []string{"C01", "C08", "C03", "C05"}, Engine: "guard + flow",
+		Text:  "rotated-away writes are refused and relative indices are recomputed: in both put finalizers (OldCurrentNewLocationBlobMap.Put, PersistentBlockList.Put) every use of `absolute index - blocks released` as an index or as the published BlockIndex is dominated by `absolute index >= blocks released` (resp. >= blocks to be released) evaluated inside the finalizer, and the BlockIndex published derives from the released-counter read inside the finalizer (never a relative index captured at allocation time)",
 		Floor: 3, MustExist: true, Run: runR016,
 	})
 	register(&Rule{
 		ID: "R03.3", Props: []string{"C03", "C02"}, Engine: "guard (monotone update)",
-		Text: "the per-block written offset only grows: outside the constructors every store to the written-offset field is on the true edge of `current value < new value`; the synchronizing/synchronized offsets are written only by NotifySyncStarting/NotifySyncCompleted by copying the previous stage",
+		Text:  "the per-block written offset only grows: outside the constructors every store to the written-offset field is on the true edge of `current value < new value`; the synchronizing/synchronized offsets are written only by NotifySyncStarting/NotifySyncCompleted by copying the previous stage",
 		Floor: 3, MustExist: true, Run: runR033,
 	})
 	register(&Rule{
 		ID: "R02.4", Props: []string{"C02", "C03", "C07"}, Engine: "flow + own",
-		Text: "only synchronised facts reach the state file, and data finalised after a sync started goes to a new epoch: GetPersistentState reads the synchronized epoch counter and the synchronized per-block offset and none of the written/synchronizing ones; Put's finalizer starts a new epoch when the epoch count equals the counter that NotifySyncStarting froze; the synchronized counters are written only by NotifySyncCompleted, PopFront and the constructor; new epoch seeds come from random.CryptoThreadSafeGenerator",
+		Text:  "only synchronised facts reach the state file, and data finalised after a sync started goes to a new epoch: GetPersistentState reads the synchronized epoch counter and the synchronized per-block offset and none of the written/synchronizing ones; Put's finalizer starts a new epoch when the epoch count equals the counter that NotifySyncStarting froze; the synchronized counters are written only by NotifySyncCompleted, PopFront and the constructor; new epoch seeds come from random.CryptoThreadSafeGenerator",
 		Floor: 5, MustExist: true, Run: runR024,
 	})
 	register(&Rule{
 		ID: "R02.6", Props: []string{"C02", "C04"}, Engine: "own + guard",
-		Text: "blocks are released only after a state file that no longer lists them was written: Block.Release is called in PersistentBlockList only from NotifyPersistentStateWritten, only on blocksToRelease[i] with i < blocksReleasing; blocksReleasing is set only by GetPersistentState (from len(blocksToRelease)) and reset only by NotifyPersistentStateWritten; PopFront only appends to blocksToRelease; the remaining queue is the suffix from blocksReleasing",
+		Text:  "blocks are released only after a state file that no longer lists them was written: Block.Release is called in PersistentBlockList only from NotifyPersistentStateWritten, only on blocksToRelease[i] with i < blocksReleasing; blocksReleasing is set only by GetPersistentState (from len(blocksToRelease)) and reset only by NotifyPersistentStateWritten; PopFront only appends to blocksToRelease; the remaining queue is the suffix from blocksReleasing",
 		Floor: 5, MustExist: true, Run: runR026,
 	})
 	register(&Rule{
 		ID: "R07.1", Props: []string{"C07"}, Engine: "own + guard + order",
-		Text: "wake-up channels: notificationChannel.channel/isBlocking are written only by newNotificationChannel, block and unblock; close() of the channel is on the isBlocking edge and followed by isBlocking=false on every path; block() re-creates only when not blocking; no other close of these channels; every append to epochHashSeeds (outside the constructor) is followed by blockPutWakeup.unblock() and every append to blocksToRelease by blockReleaseWakeup.unblock() before the function returns; block() is called only when nothing is pending (synchronized epochs == len(epochHashSeeds), resp. len(blocksToRelease) == 0)",
+		Text:  "wake-up channels: notificationChannel.channel/isBlocking are written only by newNotificationChannel, block and unblock; close() of the channel is on the isBlocking edge and followed by isBlocking=false on every path; block() re-creates only when not blocking; no other close of these channels; every append to epochHashSeeds (outside the constructor) is followed by blockPutWakeup.unblock() and every append to blocksToRelease by blockReleaseWakeup.unblock() before the function returns; block() is called only when nothing is pending (synchronized epochs == len(epochHashSeeds), resp. len(blocksToRelease) == 0)",
 		Floor: 8, MustExist: true, Run: runR071,
 	})
 	register(&Rule{
 		ID: "R02.7", Props: []string{"C02"}, Engine: "guard (reachability)",
-		Text: "restore stops at the first block the allocator cannot find: from the not-found edge of NewBlockAtLocation in NewPersistentBlockList no path reaches another NewBlockAtLocation call or an append to the block list / epoch lists",
+		Text:  "restore stops at the first block the allocator cannot find: from the not-found edge of NewBlockAtLocation in NewPersistentBlockList no path reaches another NewBlockAtLocation call or an append to the block list / epoch lists",
 		Floor: 1, MustExist: true, Run: runR027,
 	})
 }
@@ -730,6 +730,25 @@ func runR071(c *Ctx) {
 			ok := tn == "newNotificationChannel" || tn == "block" || tn == "unblock"
 			c.Check(ok, FuncName(fs.fn), "store "+fld, c.Pos(fs.st.Pos()), "written by "+tn, "notificationChannel."+fld+" is written outside newNotificationChannel/block/unblock")
 		}
+	}
+	// whole-struct stores: a wake-up channel object is replaced as a whole only
+	// by its own block() (checked below) and by constructors; replacing it
+	// anywhere else orphans the channel an idle syncer is already parked on
+	for _, f := range p.funcs {
+		withAnon(f, func(g *ssa.Function) {
+			allInstrs(g, func(ins ssa.Instruction) {
+				st, ok := ins.(*ssa.Store)
+				if !ok || !types.Identical(st.Val.Type(), nc) {
+					return
+				}
+				tn := topFunc(g).Name()
+				isCtor := topFunc(g).Signature.Recv() == nil
+				if _, isField := st.Addr.(*ssa.FieldAddr); !isField && tn != "block" {
+					return // local temporaries
+				}
+				c.Check(tn == "block" || tn == "newNotificationChannel" || isCtor, FuncName(g), "store whole channel", c.Pos(st.Pos()), "replaced by "+tn, "a wake-up channel is replaced as a whole outside its own block() and the constructors: a syncer that is already waiting on the old channel is never woken by later uploads or releases")
+			})
+		})
 	}
 	// whole-struct stores (*nc = newNotificationChannel()) only in block, on the !isBlocking edge
 	isBlockingEdge := func(b *ssa.BasicBlock, want bool) bool {
